@@ -82,11 +82,11 @@ def replay(scn, ref, EoN):
     try:
         leaf = scripted.run_scripted(fn, [], delays=delays)
     except scripted.Unmodelled as ex:
-        return [("protocol-unmodelled", "the scripted random source cannot follow the implementation: %s" % ex)]
+        return [("protocol-unmodelled~", "the scripted random source cannot follow the implementation: %s" % ex)]
     if leaf.error is not None:
         if asked == [float(r) for r in rates][:len(asked)]:
             return [("exception:%s" % type(leaf.error).__name__, repr(leaf.error))]
-        return [("exception-after-protocol-divergence", repr(leaf.error))]
+        return [("exception-after-protocol-divergence~", repr(leaf.error))]
     hist, trans = leaf.result
     out = []
     src = {}
@@ -136,16 +136,19 @@ def replay(scn, ref, EoN):
             got = want
         else:
             return [("tied-skip", "simultaneous events")]
+    # a kind that ends in "~" depends on the implementation following the specification's DRAW PROTOCOL (which draws
+    # are requested and in which order - with equal rates the order is not even observable): the caller decides those
+    # at the level of the law.  What holds for every run whatever the protocol was checked above (history-invalid).
     if got != want:
         k = 0
         while k < min(len(got), len(want)) and got[k] == want[k]:
             k += 1
-        out.append(("history", "given the same draw values the history differs from the lazy-scheduling specification at event %d: code %r, spec %r"
+        out.append(("history~", "given the same draw values the history differs from the lazy-scheduling specification at event %d: code %r, spec %r"
                     % (k, got[k:k + 2], want[k:k + 2])))
     if [float(r) for r in rates] != asked:
         k = 0
         while k < min(len(asked), len(rates)) and asked[k] == float(rates[k]):
             k += 1
-        out.append(("draw-rates", "the %d-th exponential draw was requested with rate %r, the chain's rate for that draw is %r (requested %d draws, specification %d)"
+        out.append(("draw-rates~", "the %d-th exponential draw was requested with rate %r, the chain's rate for that draw is %r (requested %d draws, specification %d)"
                     % (k + 1, asked[k] if k < len(asked) else None, rates[k] if k < len(rates) else None, len(asked), len(rates))))
     return out
